@@ -48,6 +48,65 @@ def select(t, env):
     return t
 
 
+def removal_loop_form(ck, P, f, vsq):
+    """remove_completed_entries written as a loop that copies the kept entries into a new dictionary"""
+    what = "keeps exactly the entries whose status is not marked 'all verifications received'"
+    fn = "PusVerificator.remove_completed_entries"
+    loops = [n_ for n_ in f.node.body if isinstance(n_, ast.For)]
+    if len(loops) != 1 or ast.unparse(loops[0].iter) != "self._verif_dict.items()" or not isinstance(loops[0].target, ast.Tuple) or len(loops[0].target.elts) != 2:
+        ck.unknown("D-TABLE", fn, what, "neither a dictionary comprehension nor a single loop over self._verif_dict.items()")
+        return
+    lp = loops[0]
+    kname, vname = lp.target.elts[0].id, lp.target.elts[1].id
+    # the body is interpreted once for a symbolic entry: under which condition is new[k] = v reached?
+    it = new_interp(P); env = Env()
+    v = it.new_object(vsq, symbolic=True, root="val", path="val")
+    env.vars[vname] = v
+    env.vars[kname] = sym("key")
+    stores = [n_ for n_ in ast.walk(lp) if isinstance(n_, ast.Assign) and isinstance(n_.targets[0], ast.Subscript)
+              and ast.unparse(n_.targets[0].slice) == kname and ast.unparse(n_.value) == vname]
+    if len(stores) != 1:
+        ck.unknown("D-TABLE", fn, what, f"{len(stores)} statements of the form new[{kname}] = {vname} in the loop")
+        return
+    newname = ast.unparse(stores[0].targets[0].value)
+    # path condition of the copy statement: walk the (structured) body
+    def cond_of(stmts, pc):
+        for st in stmts:
+            if st is stores[0]:
+                return pc
+            if isinstance(st, ast.If):
+                c = it.ev(st.test, env.clone(), f.module, f)
+                r = cond_of(st.body, pc + [c])
+                if r is not None:
+                    return r
+                r = cond_of(st.orelse, pc + [un("not", c)])
+                if r is not None:
+                    return r
+                # an if whose body ends in continue guards the rest of the iteration
+                if st.body and isinstance(st.body[-1], ast.Continue) and not st.orelse:
+                    pc = pc + [un("not", c)]
+                elif st.orelse and isinstance(st.orelse[-1], ast.Continue):
+                    pc = pc + [c]
+        return None
+    pc = cond_of(lp.body, [])
+    want = un("not", read_path(it, env, v, "all_verifs_recvd"))
+    probs = []
+    if pc is None:
+        ck.unknown("D-TABLE", fn, what, "the copy statement is not on a recognised path of the loop body")
+        return
+    from ..terms import truthy as _tr
+    got = [_tr(c) for c in pc]
+    if len(got) != 1 or got[0] != _tr(want):
+        probs.append(f"an entry is kept under {[show(c)[:50] for c in got]}; reference: not all_verifs_recvd")
+    src = ast.unparse(f.node)
+    if f"self._verif_dict = {newname}" not in src:
+        probs.append("the new dictionary is not stored back into self._verif_dict")
+    inits = [n_ for n_ in f.node.body if isinstance(n_, (ast.Assign, ast.AnnAssign)) and ast.unparse(n_.targets[0] if isinstance(n_, ast.Assign) else n_.target) == newname]
+    if not inits or ast.unparse(inits[0].value) not in ("dict()", "{}"):
+        probs.append("the new dictionary does not start empty")
+    ck.verdict("D-TABLE", fn, what, probs, "loop form: copy condition == not all_verifs_recvd")
+
+
 def run(ck):
     P = Program(ck.repo)
     ck.explanation = (
@@ -187,18 +246,54 @@ def run(ck):
         f_add = P.func(f"{PV}.PusVerificator.add_tc")
         # the key add_tc computes is RequestId.from_sp_header(tc.sp_header): a fresh object; model "already registered" through an opaque dictionary
         if present:
-            src = ast.unparse(f_add.node)
-            ok = "if req_id in self._verif_dict:\n        return False" in src and src.index("return False") < src.index("update")
-            ck.verdict("G-REFUSE", "PusVerificator.add_tc", "a duplicate registration returns False before the dictionary is touched", [] if ok else ["guard not found before the update"], "guard dominates update")
+            # the dictionary is opaque: `req_id in self._verif_dict` stays a symbolic condition c.  On the path where c
+            # holds nothing may be written into the dictionary and the result is False.
+            dsym = sym("verif_dict", ty="dict")
+            env3.heap[(ver3.a[0], "_verif_dict")] = dsym
+            what = "a duplicate registration returns False and leaves the dictionary untouched"
+            ns0, nn0 = len(it3.stores), len(it3.notes)
+            r3 = R.run_guarded(ck, "G-REFUSE", "PusVerificator.add_tc", "call", lambda: call_method(it3, env3, ver3, "add_tc", [tc]))
+            if r3 is None:
+                continue
+            from ..terms import subterms as _st, truthy as _tr
+            cands = [x for t_ in [r3] + list(env3.facts) + [f_ for st_ in it3.stores for f_ in st_["facts"]] for x in _st(t_)
+                     if x.k == "op" and x.a[0] in ("in", "notin") and x.a[2] == dsym]
+            if not cands:
+                ck.unknown("G-REFUSE", "PusVerificator.add_tc", what, "no membership test of the dictionary found")
+                continue
+            c = binop("in", cands[0].a[1], cands[0].a[2])
+            notc = binop("notin", cands[0].a[1], cands[0].a[2])
+
+            def holds(facts, goal, alt):
+                fs = [_tr(f_) for f_ in facts]
+                return goal in fs or un("not", alt) in fs or D.prove(fs, goal)[0] == "proved"
+            writes = [st_ for st_ in it3.stores[ns0:] if st_["oid"] == ver3.a[0] and st_["attr"] == "_verif_dict"] + \
+                     [n_ for n_ in it3.notes[nn0:] if n_.get("kind") == "substore" and n_["base"] == dsym]
+            probs = []
+            for w_ in writes:
+                if not holds(w_["facts"], notc, c):
+                    probs.append(f"`{w_['text'][:50]}` writes the dictionary also when the request id is already registered (the collected status is lost)")
+            rt = _tr(r3)
+            dup_false = rt == notc or rt == un("not", c) or (rt.k == "gamma" and rt.a[0] in (c,) and rt.a[1].k == "const" and not rt.a[1].a[0]) \
+                or (rt.k == "gamma" and rt.a[0] in (notc, un("not", c)) and rt.a[2].k == "const" and not rt.a[2].a[0])
+            if not dup_false:
+                probs.append(f"returns {show(r3)[:60]} for a duplicate; reference False")
+            ck.verdict("G-REFUSE", "PusVerificator.add_tc", what, probs[:2], f"{len(writes)} dictionary writes, all under `not ({show(c)[:40]})`")
         else:
             env3.heap[(ver3.a[0], "_verif_dict")] = T("dictlit", (), ty="dict")
             r3 = R.run_guarded(ck, "M-MODEL", "PusVerificator.add_tc", "call", lambda: call_method(it3, env3, ver3, "add_tc", [tc]))
             if r3 is not None:
                 d = read_path(it3, env3, ver3, "_verif_dict")
-                ok = r3.k == "const" and r3.a[0] is True and d.k == "listext" and d.a[1] == "update"
+                # the one new entry: written with update({k: v}) or with item assignment d[k] = v
+                entry = None
+                if d.k == "listext" and d.a[1] == "update" and d.a[2] and d.a[2][0].k == "dictlit" and len(d.a[2][0].a[0]) == 1:
+                    entry = d.a[2][0].a[0][0]
+                elif d.k == "dictlit" and len(d.a[0]) == 1:
+                    entry = d.a[0][0]
+                ok = r3.k == "const" and r3.a[0] is True and entry is not None
                 fresh_ok = False
-                if ok and d.a[2] and d.a[2][0].k == "dictlit" and len(d.a[2][0].a[0]) == 1:
-                    key, val = d.a[2][0].a[0][0]
+                if ok:
+                    key, val = entry
                     if val.k == "obj" and val.ty == vsq:
                         vals = {f: read_path(it3, env3, val, f) for f in FIELDS}
                         fresh_ok = vals["all_verifs_recvd"] == C(False) and all(vals[f].k == "const" and vals[f].a[0] == UNSET for f in FIELDS[1:])
@@ -213,7 +308,9 @@ def run(ck):
     comps = [n_ for n_ in ast.walk(f.node) if isinstance(n_, ast.DictComp)]
     probs = []
     if len(comps) != 1:
-        probs.append(f"{len(comps)} dict comprehensions")
+        # loop form: for k, v in self._verif_dict.items(): [if v.all_verifs_recvd: continue] new[k] = v ; self._verif_dict = new
+        removal_loop_form(ck, P, f, vsq)
+        comps = None
     else:
         c = comps[0]
         g = c.generators[0]
@@ -236,7 +333,8 @@ def run(ck):
         tgt = [n_ for n_ in ast.walk(f.node) if isinstance(n_, ast.Assign)]
         if not tgt or ast.unparse(tgt[0].targets[0]) != "self._verif_dict":
             probs.append("result is not stored back into self._verif_dict")
-    ck.verdict("D-TABLE", "PusVerificator.remove_completed_entries", "keeps exactly the entries whose status is not marked 'all verifications received'", probs, "filter term == not all_verifs_recvd")
+    if comps is not None:
+        ck.verdict("D-TABLE", "PusVerificator.remove_completed_entries", "keeps exactly the entries whose status is not marked 'all verifications received'", probs, "filter term == not all_verifs_recvd")
     f = P.func(f"{PV}.PusVerificator.remove_entry")
     src = ast.unparse(f.node)
     dels = [n_ for n_ in ast.walk(f.node) if isinstance(n_, ast.Delete)]
